@@ -12,8 +12,45 @@ FTR = dict(h='ftr', H='Footer', O='Header', T='FooterReference', prefix='footer'
            rel='http://schemas.openxmlformats.org/officeDocument/2006/relationships/footer',
            ct='application/vnd.openxmlformats-officedocument.wordprocessingml.footer+xml', word='footer')
 
-FUNCS = [('AddHeader', HDR), ('AddFooter', FTR), ('AddHeaderWithPageNumber', HDR), ('AddFooterWithPageNumber', FTR),
-         ('AddFormattedHeader', HDR), ('AddFormattedFooter', FTR)]
+FUNCS = [('AddHeader', HDR, 'plain'), ('AddFooter', FTR, 'plain'), ('AddHeaderWithPageNumber', HDR, 'pagenum'),
+         ('AddFooterWithPageNumber', FTR, 'pagenum'), ('AddFormattedHeader', HDR, 'formatted'), ('AddFormattedFooter', FTR, 'formatted')]
+
+# What is serialised into the part: exactly one value is handed to xml.MarshalIndent, a fresh %(H)s whose single paragraph
+# carries the call's text (and page-number field / formatting); the part's content ends with the bytes returned for it.
+CONTENT_COMMON = r'''// what is serialised: one fresh %(H)s with a single paragraph; the part ends with the bytes the serialiser returned for it
+//@ ensures err == nil ==> marshalCount() == old(marshalCount()) + 1 && typeIs(marshalAt(old(marshalCount())), "*%(H)s") && fresh(%(mv)s) && len(%(mv)s.Paragraphs) == 1 && fresh(%(mv)s.Paragraphs[0])
+//@ ensures err == nil ==> len(d.parts[%(part)s]) >= len(marshalOut(old(marshalCount()))) && (forall i int :: 0 <= i && i < len(marshalOut(old(marshalCount()))) ==> d.parts[%(part)s][len(d.parts[%(part)s]) - len(marshalOut(old(marshalCount()))) + i] == marshalOut(old(marshalCount()))[i])
+//@ ensures err != nil ==> marshalCount() == old(marshalCount())
+'''
+def pagenum_clauses():
+    out = ['// runs: [text]? then, when a page number is requested, " 第 ", the PAGE field (begin, instruction, separate, placeholder, end), " 页"\n',
+           '//@ ensures err == nil ==> %(mp)s.Properties == nil && len(%(mp)s.Runs) == ite(text != "", 1, 0) + ite(showPageNum, 7, 0)\n',
+           '//@ ensures err == nil && text != "" ==> %(mp)s.Runs[0].Text.Content == text && %(mp)s.Runs[0].Text.Space == "preserve" && %(mp)s.Runs[0].FieldChar == nil && %(mp)s.Runs[0].InstrText == nil\n']
+    for cond, base in (('text != ""', 1), ('text == ""', 0)):
+        g = '//@ ensures err == nil && showPageNum && ' + cond + ' ==> '
+        r = lambda k: '%(mp)s.Runs[' + str(base + k) + ']'
+        out.append(g + r(0) + '.Text.Content == " 第 " && ' + r(0) + '.FieldChar == nil && ' + r(0) + '.InstrText == nil\n')
+        out.append(g + r(1) + '.FieldChar != nil && ' + r(1) + '.FieldChar.FieldCharType == "begin" && ' + r(1) + '.InstrText == nil\n')
+        out.append(g + r(2) + '.InstrText != nil && ' + r(2) + '.InstrText.Content == " PAGE  \\\\* MERGEFORMAT " && ' + r(2) + '.FieldChar == nil\n')
+        out.append(g + r(3) + '.FieldChar != nil && ' + r(3) + '.FieldChar.FieldCharType == "separate" && ' + r(3) + '.InstrText == nil\n')
+        out.append(g + r(4) + '.Text.Content == "1" && ' + r(4) + '.FieldChar == nil && ' + r(4) + '.InstrText == nil\n')
+        out.append(g + r(5) + '.FieldChar != nil && ' + r(5) + '.FieldChar.FieldCharType == "end" && ' + r(5) + '.InstrText == nil\n')
+        out.append(g + r(6) + '.Text.Content == " 页" && ' + r(6) + '.FieldChar == nil && ' + r(6) + '.InstrText == nil\n')
+    return ''.join(out)
+
+PAGENUM = pagenum_clauses()
+CONTENT = {
+ 'plain': r'''//@ ensures err == nil ==> %(mp)s.Properties == nil && (text == "" ==> len(%(mp)s.Runs) == 0) && (text != "" ==> len(%(mp)s.Runs) == 1 && %(mp)s.Runs[0].Text.Content == text && %(mp)s.Runs[0].Text.Space == "preserve" && %(mp)s.Runs[0].Properties == nil && %(mp)s.Runs[0].FieldChar == nil && %(mp)s.Runs[0].InstrText == nil)
+''',
+ 'pagenum': PAGENUM,
+ 'formatted': r'''// the paragraph is the one createFormattedParagraph builds from the configuration (text, alignment, run formatting; see its contract)
+//@ ensures err == nil && config != nil ==> (config.Alignment == "" ==> %(mp)s.Properties == nil) && (config.Alignment != "" ==> %(mp)s.Properties != nil && %(mp)s.Properties.Justification != nil && %(mp)s.Properties.Justification.Val == string(config.Alignment))
+//@ ensures err == nil && config != nil ==> (config.Text == "" ==> len(%(mp)s.Runs) == 0) && (config.Text != "" ==> len(%(mp)s.Runs) == 1 && %(mp)s.Runs[0].Text.Content == config.Text && %(mp)s.Runs[0].Text.Space == "preserve" && (config.Format == nil ==> %(mp)s.Runs[0].Properties == nil))
+//@ ensures err == nil && config != nil && config.Text != "" && config.Format != nil ==> %(mp)s.Runs[0].Properties != nil && (%(mp)s.Runs[0].Properties.Bold != nil) == config.Format.Bold && (%(mp)s.Runs[0].Properties.Italic != nil) == config.Format.Italic && (%(mp)s.Runs[0].Properties.Underline != nil) == config.Format.Underline && (%(mp)s.Runs[0].Properties.Strike != nil) == config.Format.Strike
+//@ ensures err == nil && config != nil && config.Text != "" && config.Format != nil ==> (config.Format.FontSize > 0 ==> %(mp)s.Runs[0].Properties.FontSize != nil && %(mp)s.Runs[0].Properties.FontSize.Val == itoa(config.Format.FontSize * 2)) && (config.Format.FontColor != "" ==> %(mp)s.Runs[0].Properties.Color != nil && %(mp)s.Runs[0].Properties.Color.Val == strings.TrimPrefix(config.Format.FontColor, "#")) && (fmtFont(config.Format) != "" ==> %(mp)s.Runs[0].Properties.FontFamily != nil && %(mp)s.Runs[0].Properties.FontFamily.ASCII == fmtFont(config.Format)) && (config.Format.Highlight != "" ==> %(mp)s.Runs[0].Properties.Highlight != nil && %(mp)s.Runs[0].Properties.Highlight.Val == config.Format.Highlight)
+//@ ensures err == nil && config == nil ==> %(mp)s.Properties == nil && len(%(mp)s.Runs) == 0
+''',
+}
 
 TEMPLATE = r'''
 //@ func (*Document).%(fn)s
@@ -65,7 +102,7 @@ TEMPLATE = r'''
 
 def gen():
     out = []
-    for fn, p in FUNCS:
+    for fn, p, variant in FUNCS:
         q = dict(p)
         q['fn'] = fn
         q['file'] = 'hfFile("%s", %s)' % (p['prefix'], p['kind'])
@@ -75,7 +112,14 @@ def gen():
         q['relq'] = '"%s"' % p['rel']
         q['ns'] = 'd.Body.Elements[old(len(d.Body.Elements))].(*SectionProperties)'
         q['oword'] = 'footer' if p['word'] == 'header' else 'header'
-        out.append(TEMPLATE % q)
+        q['mv'] = 'marshalAt(old(marshalCount())).(*%s)' % p['H']
+        q['mp'] = q['mv'] + '.Paragraphs[0]'
+        q['r'] = q['mp'] + '.Runs[ite(text != "", 1, 0) + '
+        t = TEMPLATE % q
+        marker = '// section settings found or created'
+        i = t.index(marker)
+        t = t[:i] + (CONTENT_COMMON % q) + (CONTENT[variant] % q) + t[i:]
+        out.append(t)
     return ''.join(out)
 
 BEGIN = '// ---- GENERATED by /verif/tools/gen_hf_contracts.py: the six public calls (do not edit by hand) ----\n'
